@@ -70,6 +70,12 @@ def build_menu():
     for alg in ("bc", "tq"):
         for inst in ([7, 6, 5, 4, 3, 2], [9, 9, 9], A7):                             # total 27, bin size 10
             pack(alg, inst, 10, "list", "PartitionAndSumsTuple")
+    # numpy arrays of a NARROW integer type whose sums pass the range of the type (uint8 / uint16): whatever the adaptors do about such arrays, they must do
+    # it on every call, not only on the first array of that type an interpreter sees
+    U = [200, 100, 90, 60, 30]; V = [30000, 20000, 15000, 9000, 41000]
+    part("dp", U, 2, "narrowarray", "Sums", o="diff"); part("greedy", U, 2, "narrowarray", "Sums"); part("multifit", U, 3, "narrowarray", "Sums"); part("snp", U, 3, "narrowarray", "Sums")
+    part("dp", V, 2, "narrowarray", "Sums", o="maxsum"); part("kk", V, 3, "narrowarray", "Sums"); part("cg", V, 2, "narrowarray", "Partition", o="diff")
+    pack("bc", U, 255, "narrowarray", "Sums"); pack("ffd", U, 255, "narrowarray", "Sums"); pack("tq", U, 250, "narrowarray", "Sums"); pack("bfd", V, 65000, "narrowarray", "BinCount"); pack("dec", V, 50000, "narrowarray", "Sums")
     # CALLER-OWNED OBJECTS: calls that name an object (obj=...) are made with ONE container per name and history - a dict / a list / a value table that the
     # caller overwrites before each call and passes again (re-planning after an update is everyday use).  The answer must be that of a fresh container.
     for alg in ("greedy", "roundrobin", "kk", "multifit", "ckk", "snp", "dp", "cg"):
